@@ -51,6 +51,25 @@ def gen_cases(run: Run, n: int):
             lp = B.op17.loop(B.op17.const(np.array(2, np.int64)), v_initial=[s1], body=lambda i, c, a: [c, B.op17.mul(a, s2)])[0]
             outs = {"prod": B.op17.mul(s1, s2), "alone": B.op17.relu(s1), "branch": br, "carried": lp, "broadcast": B.op17.add(x, s1)}
             cases.append(B.Case({"x": x, "cnd": cnd}, outs, False, {"legal": True, "rank_of_small_constants": f"{mk_name}{list(sh)}"}))
+    # DEFAULT-VALUED model inputs (arguments(w=<array>): a graph input backed by an initializer) whose only consumers sit inside control-
+    # flow bodies: the input is declared - with its default - by the MAIN graph only, and a fed value is what the bodies read
+    from spox._graph import arguments as _arguments
+    for where in ("if-branch", "loop-body", "nested-if-in-loop", "branch-and-main"):
+        x = B.argument(B.Tensor(F32, (2,)))
+        cnd = B.argument(B.Tensor(np.bool_, ()))
+        (w,) = _arguments(w=np.array([10, 20], F32))
+        if where == "if-branch":
+            (r,) = B.op17.if_(cnd, then_branch=lambda: [B.op17.add(x, w)], else_branch=lambda: [B.op17.neg(x)])
+            outs = {"r": r}
+        elif where == "loop-body":
+            outs = {"r": B.op17.loop(B.op17.const(np.array(2, np.int64)), v_initial=[x], body=lambda i, c, a: [c, B.op17.mul(a, w)])[0]}
+        elif where == "nested-if-in-loop":
+            outs = {"r": B.op17.loop(B.op17.const(np.array(2, np.int64)), v_initial=[x], body=lambda i, c, a: [
+                c, B.op17.if_(cnd, then_branch=lambda: [B.op17.add(a, w)], else_branch=lambda: [B.op17.identity(a)])[0]])[0]}
+        else:
+            (r,) = B.op17.if_(cnd, then_branch=lambda: [B.op17.add(x, w)], else_branch=lambda: [B.op17.neg(x)])
+            outs = {"r": r, "s": B.op17.mul(w, x)}
+        cases.append(B.Case({"x": x, "cnd": cnd, "w": w}, outs, False, {"legal": True, "default_valued_input_read_in": where}))
     # scope-tree skeletons (shared with C04): a value (every 2nd time an initializer) created in one scope and used in others
     from harness import c04
     sks = list(c04.enumerate_skeletons(3, 1))
